@@ -29,7 +29,13 @@ PS = None
 def last_match_event(events, start, end):
     """the match event of the final path for the token at [start,end): the last successful one there"""
     for ev in reversed(events):
-        if ev[0] == 'match' and ev[4] == start and ev[5] == end:
+        if ev[0] != 'match' or ev[5] != end:
+            continue
+        if ev[4] == start:
+            return ev
+        if ev[4] == ev[5] and ev[3] <= start:
+            # a suppressed match leaves no node to take the start from: the hook records start = end; it began its
+            # whitespace skipping at ev[3] <= start
             return ev
     return None
 
@@ -110,6 +116,9 @@ def _one(ctx, i, rep=None):
                 continue
             _, rule_name, kind, p0, start, end, to_match, ws, skipws, eol, in_c, ic, _id = ev
             ctx.count('tokens_context_checked')
+            if start == end and t.start < end:
+                start = t.start     # suppressed match: see last_match_event
+                ctx.count('suppressed_match_events_checked')
             tx_ws = ws if skipws else ''
             if set(tx_ws) != set(t.ws) and not t.in_comment:
                 bad = ('token %r at %d: textX had whitespace set %r (skipws=%r) in force, the grammar modifiers prescribe %r'
@@ -177,24 +186,27 @@ def _one(ctx, i, rep=None):
                 w2 = dict(wit, inserted=ins, at=t.start, kind=what, mutated=s2, reference=repr(ref2)[:600], textx=repr(got2)[:600])
                 if what in ('active', 'comment') and ref2 == ref:
                     if g2 != ref:
-                        ctx.violation(classify(g, s2, cfg, ref2, got2, stripped2),
+                        ctx.violation(classify(g, s2, cfg, ref2, got2, stripped2, mm),
                                       'inserting %r (%s) before token %r at %d changes the outcome: %s' % (
                                           ins, 'whitespace of the active set' if what == 'active' else 'a comment', t.text, t.start, got2[0]),
                                       w2, rep)
                         break
                 elif g2 != ref2:
-                    ctx.violation(classify(g, s2, cfg, ref2, got2, stripped2),
+                    ctx.violation(classify(g, s2, cfg, ref2, got2, stripped2, mm),
                                   'inserting %r (%s) before token %r at %d: textX %s, grammar semantics give %s' % (
                                       ins, what, t.text, t.start, got2[0], ref2[0]), w2, rep)
                     break
 
 
-def classify(g, s, cfg, ref, got, stripped):
-    from tv.props.c01 import classify_div
+def classify(g, s, cfg, ref, got, stripped, mm=None):
+    from tv.props.c01 import classify_div, classify_ws_restore
     cc = False
     if isinstance(stripped, tuple):
         cc, stripped = True, stripped[1]
     k = classify_div(g, s, cfg, ref, got, set(), stripped)
+    if k is None and stripped and mm is not None:
+        # explained-by: the divergence disappears on an Arpeggio that saves / restores the real whitespace set
+        k = classify_ws_restore(mm, g, s, cfg, ref, stripped)
     if k is None and cc:
         # the monitor saw a comment-cache entry stored under one whitespace mode used under another
         return 'comment-cache-ignores-ws-mode'
